@@ -120,12 +120,13 @@ def parse_overlay(path):
         elif st.startswith('@fn'):
             flush(); sect = None
             parts = st.split()
-            cur = {'qual': parts[1], 'disp': 'verify', 'ret': None, 'props': None, 'pin': None, 'cover': None, 'attrs': []}
+            cur = {'qual': parts[1], 'disp': 'verify', 'ret': None, 'props': None, 'pin': None, 'cover': None, 'attrs': [], 'implicit': None}
             for p in parts[2:]:
                 if p in ('trusted', 'ignored', 'nodecreases', 'verify'): cur['disp'] = p
                 elif p.startswith('ret='): cur['ret'] = p[4:]
                 elif p.startswith('props='): cur['props'] = p[6:].split(',')
                 elif p.startswith('pin='): cur['pin'] = p[4:]
+                elif p.startswith('implicit='): cur['implicit'] = p[9:].split(',')
                 elif p.startswith('cover='): cur['cover'] = p[6:]
                 elif p.startswith('attr='): cur['attrs'].append(p[5:])
                 elif p.startswith('rlimit='): cur['attrs'].append(f'verifier::rlimit({p[7:]})')
@@ -253,7 +254,11 @@ class Weaver:
                 ov = parse_overlay(os.path.join(contracts_dir, fn))
                 if ov['file'] in self.overlays: raise ValueError('two overlays for ' + ov['file'])
                 self.overlays[ov['file']] = ov
-        self.prelude = open(prelude_path).read()
+        if os.path.isdir(prelude_path):
+            self.prelude = '\n'.join(open(os.path.join(prelude_path, f)).read()
+                                     for f in sorted(os.listdir(prelude_path)) if f.endswith('.rs'))
+        else:
+            self.prelude = open(prelude_path).read()
         self.originals = {}   # rel -> blanked source text
 
     # --- blanking of test items and crate docs (line-preserving)
@@ -423,9 +428,17 @@ class Weaver:
                     'line': s.count('\n', 0, f['start']) + 1, 'end_line': s.count('\n', 0, f['close']) + 1,
                     'body_sha': hashlib.sha256(body.encode()).hexdigest()[:16],
                     'pin': spec['pin'] if spec else None, 'cover': spec['cover'] if spec else None,
-                    'auto': auto, 'trait': f['trait']}
+                    'auto': auto, 'trait': f['trait'], 'implicit': spec['implicit'] if spec else None}
             self.fn_info.append(info)
             if not spec: continue
+            tags = set()
+            for kind, lst in spec.items():
+                if isinstance(lst, list) and kind not in ('props', 'attrs', 'implicit'):
+                    for item in lst:
+                        if isinstance(item, tuple):
+                            for tm in re.finditer(r'(?m)^\s*\[((?:C\d+)(?:,C\d+)*)\]', item[1]):
+                                tags |= set(tm.group(1).split(','))
+            info['props'] = sorted(set(props) | tags)
             if spec['pin'] and spec['pin'] != info['body_sha']:
                 self.lost.append(f"{rel}: fn {qual}: pinned body changed ({info['body_sha']} != {spec['pin']})")
             # return naming
